@@ -249,23 +249,31 @@ theorem inv_cfgUpdate (s : Store) (p : Procs) (n : Nat) (c : Cfg) (h : Inv s p) 
           by_cases hov : old.valid
           · simp only [hov, ↓reduceIte] at hp ⊢
             obtain ⟨pr, hpr, hcfg, hhosts⟩ := hp
-            simp only [List.append_nil, drain, List.foldl_cons, List.foldl_nil, apply, hpr]
             by_cases hv : c.valid
-            · simp only [hv, ↓reduceIte, upd]; exact ⟨_, rfl, rfl, hhosts⟩
-            · simp only [hv, Bool.false_eq_true, ↓reduceIte]
-              right; exact ⟨pr, hpr, by rw [hcfg]; exact hov, hhosts⟩
+            · have hd : drain p ([Event.config m c] ++ [Event.add m c e]) m = some { pr with cfg := c } := by
+                simp [drain, apply, hpr, hv, upd]
+              simp only [hv, ↓reduceIte]; exact ⟨_, hd, rfl, hhosts⟩
+            · have hd : drain p ([Event.config m c] ++ [Event.add m c e]) m = some pr := by
+                simp [drain, apply, hpr, hv]
+              simp only [hv, Bool.false_eq_true, ↓reduceIte]
+              right; exact ⟨pr, hd, by rw [hcfg]; exact hov, hhosts⟩
           · simp only [hov, Bool.false_eq_true, ↓reduceIte] at hp ⊢
-            simp only [List.singleton_append, drain, List.foldl_cons, List.foldl_nil, apply]
             rcases hp with hp | ⟨pr, hpr, hval, hhosts⟩
-            · simp only [hp]
-              by_cases hv : c.valid
-              · simp only [hv, ↓reduceIte, upd]; exact ⟨_, rfl, rfl, fun x => eraseDups_mem e x⟩
-              · simp only [hv, Bool.false_eq_true, ↓reduceIte]; left; exact hp
-            · simp only [hpr]
-              by_cases hv : c.valid
-              · simp only [hv, ↓reduceIte, upd]; exact ⟨_, rfl, rfl, hhosts⟩
-              · simp only [hv, Bool.false_eq_true, ↓reduceIte, hpr]
-                right; exact ⟨pr, rfl, hval, hhosts⟩
+            · by_cases hv : c.valid
+              · have hd : drain p ([Event.config m c] ++ [Event.add m c e]) m = some { cfg := c, hosts := e.eraseDups } := by
+                  simp [drain, apply, hp, hv, upd]
+                simp only [hv, ↓reduceIte]; exact ⟨_, hd, rfl, fun x => eraseDups_mem e x⟩
+              · have hd : drain p ([Event.config m c] ++ [Event.add m c e]) m = none := by
+                  simp [drain, apply, hp, hv]
+                simp only [hv, Bool.false_eq_true, ↓reduceIte]; left; exact hd
+            · by_cases hv : c.valid
+              · have hd : drain p ([Event.config m c] ++ [Event.add m c e]) m = some { pr with cfg := c } := by
+                  simp [drain, apply, hpr, hv, upd]
+                simp only [hv, ↓reduceIte]; exact ⟨_, hd, rfl, hhosts⟩
+              · have hd : drain p ([Event.config m c] ++ [Event.add m c e]) m = some pr := by
+                  simp [drain, apply, hpr, hv]
+                simp only [hv, Bool.false_eq_true, ↓reduceIte]
+                right; exact ⟨pr, hd, hval, hhosts⟩
       · have hsm : upd s n (some { cfg := some c, eps := some e }) m = s m := by simp [upd, hm]
         simp only []
         rw [hsm]
@@ -277,11 +285,7 @@ theorem inv_cfgUpdate (s : Store) (p : Procs) (n : Nat) (c : Cfg) (h : Inv s p) 
           simp only [List.nil_append]
           rw [key _ (by intro ev h'; simp at h'; exact Or.inr h')]; exact h m
         | some old =>
-          by_cases hov : old.valid
-          · simp only [hov, ↓reduceIte, List.append_nil]
-            rw [key _ (by intro ev h'; simp at h'; exact Or.inl h')]; exact h m
-          · simp only [hov, Bool.false_eq_true, ↓reduceIte]
-            rw [key _ (by intro ev h'; simp at h'; exact h')]; exact h m
+          rw [key _ (by intro ev h'; simp at h'; exact h')]; exact h m
 
 
 theorem apply_endpoints_hosts (pr : Proc) (e va vr : List Nat) (e1 e2 added removed : List Nat)
